@@ -800,6 +800,9 @@ func TestC05_RollingDescriptors(t *testing.T) {
 	vk.Rule(rule)
 	vk.Assume("the wall clock does not step during a run")
 	base := vk.Scratch("c05r")
+	// the collector is off for these few seconds: a descriptor the appender merely forgot would
+	// otherwise be closed by a finalizer before anybody counts
+	defer debug.SetGCPercent(debug.SetGCPercent(-1))
 	runs := 2
 	if vk.Thorough() {
 		runs = 6
